@@ -25,6 +25,7 @@ def main(tier, seed):
     # whole-run traces of `inspect` (Osaca.tla): the summary numbers are the numbers the graph stage computed
     from harness import osaca_run
     osaca_run.whole_runs(run, "C04", tier, seed)
+    osaca_run.api_reuse(run, "C04", tier, seed)
     for c in cases:
         if "error" not in c and len(c["E"]) >= 2 and len(c["cpMarked"]) >= 2:
             run.mark(c.get("text", "") + "|" + c["id"].split(":")[2])
